@@ -1650,8 +1650,8 @@ impl Stdfs {
             return Err(PathError::does_not_exist(&dir).into());
         }
 
-        // Validate the file
-        if Stdfs::exists(&path) && !Stdfs::is_file(&path) {
+        // Validate the file, a link is not a file whether its target exists or not
+        if fs::symlink_metadata(&path).is_ok() && !Stdfs::is_file(&path) {
             return Err(PathError::is_not_file(&path).into());
         }
 
